@@ -219,7 +219,12 @@ def run(ctx):
         corpus.setdefault(bytes(rnd.getrandbits(8) for _ in range(rnd.choice([0, 1, 2, 3, 5, 9, 40, 300]))), "random")
         corpus.setdefault(struct.pack(">H", rnd.choice([B.seq_t, B.map_t, B.string_t, B.int8_t, 130])) + bytes(rnd.getrandbits(8) for _ in range(rnd.randint(0, 30))), "random-typed")
     rows, meta = [], []
+    # each input that runs into the watchdog costs 5 s: after a few of them the verdict is settled and the rest of the corpus is not tried any more
+    def settled():
+        return sum(1 for r_ in rows if str(r_[1]).startswith("timeout")) >= 3
     for k, (data, kind) in enumerate(corpus.items()):
+        if settled():
+            break
         row = observe(S, data, clean)
         if k % 4 == 0:
             # decoding is a function of the bytes: the same input again, in the same process, ends the same way with the same amount of work
@@ -232,11 +237,15 @@ def run(ctx):
     # the handshake decoders the server runs on unauthenticated input
     ctxt = impl.mod("context").ServerContext(impl.mod("handler").EventHandler())
     for data, kind in list(corpus.items())[:: (3 if ctx.quick else 1)]:
+        if settled():
+            break
         conn = C.ServerClientConnection(ctxt, ("9.9.9.9", 9))
         rows.append(observe(S, data, lambda v: True, entry=conn._recvClientHello))
         meta.append(("server._recvClientHello:" + kind, data))
     for data, kind in shello.items():
         for pinned in (None, "other"):
+            if settled():
+                break
             key = None if pinned is None else impl.mod("crypto").EllipticCurvePrivateKey.new().getPublicKey()
             rows.append(observe(S, data, lambda v: True, entry=lambda d, key=key: S.Serializable.loadb(d, server_public_key=key)))
             meta.append(("client.loadb(server hello, pinned key=%s):%s" % (pinned, kind), data))
